@@ -454,6 +454,15 @@ def receiver_flags(chk, P, prefix):
         if vals.get(True) is not True or vals.get(False) is not False:
             return False, ("is_in_batch must become true exactly on the non-empty arm and false on the empty arm "
                            "(found value->nonempty map %s)" % vals), [], inb[0][1]
+        # both writes happen inside the one critical section that takes the batch: exec locks the state once
+        locks = lock_calls(b)
+        if len(locks) != 1:
+            return False, ("exec acquires the state lock %d times: is_in_batch must change in the same critical section that takes the batch, or a "
+                           "flush arriving between the two sees 'queue empty, not in a batch' while a batch is in flight" % len(locks)), [], (locks[1].loc if len(locks) > 1 else b.span)
+        rp = [c for c in b.calls(normal_only=True) if (c.callee.get("path") or "").startswith("core::mem::replace")]
+        for bb, loc in inb:
+            if not b.dominates(locks[0].bb, bb):
+                return False, "is_in_batch is written outside the critical section at %s" % loc, [], loc
         tk = [(bb, loc) for bb, names, how, loc in ws if names == ["next_batch", "watchers"] and how == "take"]
         if len(tk) != 1:
             return False, "expected the pending watchers to be taken once on the empty arm", [], b.span
@@ -1350,3 +1359,46 @@ def metrics_accounting(chk, P, prefix, crates=("emit_batcher",)):
             return False, "queue_length is read without the state lock", [], v[1].loc
         return True, "", [v[1].loc, mk[0].loc]
     chk.ob("%s.R6:queue_length" % prefix, "the queue_length gauge is the pending batch's item count read under the state lock", queue_length)
+
+
+def tokio_wait(chk, P, prefix):
+    """tokio::wait (the async flush/send wait): `true` only when the oneshot was observed - an earlier try_recv succeeded or the
+    Timeout future resolved Ok - and constant `false` when the timeout elapsed or is zero."""
+    def f():
+        ks = [k for k in P.bodies if k.startswith("emit_batcher::tokio::wait::{closure")]
+        if not ks:
+            raise mir.AnchorMissing("emit_batcher::tokio::wait")
+        b = P.body(ks[0])
+        n = 0
+        for rb in b.return_blocks():
+            for path in b.acyclic_paths(0, rb, limit=2000):
+                ps = mir.PathSummary(b, path)
+                r = ps.ret()
+                v = mir.o_const_value(r)
+                n += 1
+                if v is False:
+                    continue
+                seen = False
+                elapsed = False
+                tdepth = []
+                for sbb, o, vals in ps.decisions():
+                    txt = o_str(o)
+                    if o[0] == "call" and o[1].callee.get("name") == "is_ok" and tuple(vals) not in (("0",), (0,)):
+                        seen = True
+                    if "Timeout<" in txt and o[0] == "discr":
+                        tdepth.append(tuple(vals))
+                # decisions on the Timeout result: [poll Ready(0)], [Ok(0)|Err(1) of Elapsed], [inner Ok/Err of the oneshot]
+                if len(tdepth) >= 2:
+                    if tdepth[1] in (("0",), (0,)):
+                        seen = True
+                    else:
+                        elapsed = True
+                if elapsed or not seen:
+                    return False, ("tokio::wait returns %s on a path where the timeout elapsed (or the notifier was never observed): an async flush "
+                                   "whose timeout expires while the batch is still in flight would report completion" % o_str(r)), [], b.span
+                if v is not True:
+                    return False, "tokio::wait returns %s, not a constant, on a notified path" % o_str(r), [], b.span
+        if n < 4:
+            raise mir.AnchorMissing("paths of tokio::wait (found %d)" % n)
+        return True, "", [b.span]
+    chk.ob("%s.R4:tokio::wait" % prefix, "the async wait reports completion only when the notifier fired; an elapsed or zero timeout is false", f)
